@@ -139,15 +139,21 @@ def match_finding(findings, pid, check, sig):
             continue
         if pid not in f.get("properties", []):
             continue
-        m = f.get("matcher", {})
-        ok = True
-        for k, v in m.items():
-            got = check if k == "check" else sig.get(k)
-            if isinstance(v, list):
-                if got not in v:
-                    ok = False
-            elif got != v:
-                ok = False
+        alts = f.get("matcher", {})
+        alts = alts if isinstance(alts, list) else [alts]
+        ok = False
+        for m in alts:  # a list of matchers means: any of them
+            good = True
+            for k, v in m.items():
+                got = check if k == "check" else sig.get(k)
+                if isinstance(v, list):
+                    if got not in v:
+                        good = False
+                elif got != v:
+                    good = False
+            if good:
+                ok = True
+                break
         if ok:
             return f
     return None
